@@ -1,6 +1,7 @@
 #!/bin/bash
 # usage: try_mutant.sh <patch.diff> <Cxx> [tier]   -- apply to /repo, run the check, always undo
 p="$1"; pid="$2"; tier="${3:-quick}"
+if [ -n "$(git -C /repo status --porcelain --untracked-files=no)" ]; then echo "REFUSING: /repo has uncommitted changes (they would be lost by the final checkout)"; exit 3; fi
 cd /repo && git apply "$p" || { echo "PATCH DOES NOT APPLY"; exit 3; }
 out=$(mktemp -d /tmp/try_out_XXXX); cd /verif && VERIF_OUT=$out ./check "$pid" --tier "$tier" 2>&1 | grep -v "WARNING conda" | grep -E "VIOLATION|KNOWN-FINDING|MACHINERY|clause=|^C[0-9]+ " | head -12
 rc=${PIPESTATUS[0]}
